@@ -1,4 +1,5 @@
 import MitmVerif.Model.C26
+import MitmVerif.Lemmas.C26Live
 import Driver.Proto
 open MitmVerif Driver
 open MitmVerif.C25 MitmVerif.C26
@@ -44,6 +45,10 @@ def step (line : String) : String :=
       if proto = "udp" then withTable tbl fun I => showFwd (forwardUdp I b)
       else if proto = "tcp" then withTable tbl fun I => showFwd (forwardTcp I b)
       else "bad-op"
+    | none => "bad-op"
+  | ["live", h] =>
+    match hexOr h with
+    | some b => if liveCheck b then "1" else "0"
     | none => "bad-op"
   | ["ref", h] =>
     match hexOr h with
